@@ -308,6 +308,10 @@ MUTATIONS = [
      'edits': [('gnpy/core/network.py', """        params['att_in'] = new_att_in[span]
         params['lumped_losses'] = new_lumped_losses[span]
 """, "")]},
+    {'id': 'c17-revert-raman-power-after-voa', 'props': ['C17'], 'tests': 'tests/test_network_functions.py tests/test_science_utils.py',
+     'desc': 'revert of the fix: Raman gain estimated with the power before the previous amplifier\'s output VOA',
+     'edits': [('gnpy/core/network.py', "input_power=pref_ch_db + dp[band_name] - voa[band_name])",
+                "input_power=pref_ch_db + dp[band_name])")]},
     {'id': 'c11-revert-explicit-ispart', 'props': ['C11'], 'tests': 'tests/test_path_computation_functions.py tests/test_disjunction.py',
      'desc': 'revert of fix e50d35fe: explicit route returned without checking the listed nodes are crossed in order',
      'edits': [('gnpy/topology/request.py', "    if total_path is not None and ispart(nodes_list, total_path):",
